@@ -37,10 +37,10 @@ def selftest(seed):
     ok = True
     table = []
 
-    def run(kind, profile, spec, muts, marker):
+    def run(kind, profile, spec, muts, marker, more=()):
         nonlocal ok
-        d = '%s/%s' % (outdir, profile)
-        st = run_profile(binp, profile, d, seed, 'quick', shards=1, extra=['--only', 'Big5,ISO-2022-JP,windows-1252,UTF-8,UTF-16LE,gb18030'])
+        d = '%s/%s%s' % (outdir, profile, '_m' if more else '')
+        st = run_profile(binp, profile, d, seed, 'quick', shards=1, extra=['--only', 'Big5,ISO-2022-JP,windows-1252,UTF-8,UTF-16LE,gb18030'] + list(more))
         lines = open(st['files'][0]).read().strip().split('\n')[:6000]
         base = validate_trace(spec, st['files'][0])
         if base['viol']:
@@ -91,6 +91,16 @@ def selftest(seed):
     ]
     run('dec', 'dec-random', 'TraceDec', dec_muts, '{"ev":"D"')
     run('enc', 'enc-random', 'TraceEnc', enc_muts, '{"ev":"E"')
+    man_dec = [
+        ('manual twin: one U+FFFD fewer', lambda e: (e['man']['out'].pop(), e['man'].__setitem__('written', e['man']['written'] - 1)) if e.get('man', {}).get('had') else None),
+        ('manual twin: flag differs', lambda e: e['man'].__setitem__('had', not e['man']['had']) if 'man' in e else None),
+    ]
+    man_enc = [
+        ('manual twin: NCR digit differs', lambda e: e['man']['out'].__setitem__(-2, e['man']['out'][-2] ^ 1) if e.get('man', {}).get('had') and e['man']['out'][-1] == 59 else None),
+        ('manual twin: flag differs', lambda e: e['man'].__setitem__('had', not e['man']['had']) if 'man' in e else None),
+    ]
+    run('dec', 'dec-random', 'TraceDec', man_dec, '{"ev":"D"', more=['--repl', 'on', '--sinks', 'utf8,utf16', '--manual'])
+    run('enc', 'enc-random', 'TraceEnc', man_enc, '{"ev":"E"', more=['--repl', 'on', '--manual'])
     for row in table:
         print('%-4s %-34s -> %s' % row)
     print('SELFTEST', 'ok: every perturbed trace was rejected' if ok else 'FAILED: a perturbed trace was accepted')
@@ -582,13 +592,16 @@ def plan_C08(rep, seed, tier):
 
 def plan_C09(rep, seed, tier):
     binp = build_harness('default')
-    rv(rep, binp, 'dec-cutsets', seed, tier, extra=['--repl', 'on', '--sinks', 'utf8,utf16'], tag='dec-cutsets-repl')
-    rv(rep, binp, 'enc-cutsets', seed, tier, extra=['--repl', 'on'], tag='enc-cutsets-repl')
-    rv(rep, binp, 'dec-random', seed, tier, extra=['--repl', 'on'], tag='dec-random-repl')
-    rv(rep, binp, 'enc-pairs', seed, tier, extra=['--repl', 'on', '--thin', '2' if tier == 'quick' else '1'], tag='enc-pairs-repl')
+    rv(rep, binp, 'dec-cutsets', seed, tier, extra=['--repl', 'on', '--sinks', 'utf8,utf16', '--manual'], tag='dec-cutsets-repl')
+    rv(rep, binp, 'enc-cutsets', seed, tier, extra=['--repl', 'on', '--manual'], tag='enc-cutsets-repl')
+    rv(rep, binp, 'dec-random', seed, tier, extra=['--repl', 'on', '--sinks', 'utf8,utf16', '--manual'], tag='dec-random-repl')
+    rv(rep, binp, 'enc-pairs', seed, tier, extra=['--repl', 'on', '--manual', '--thin', '2' if tier == 'quick' else '1'], tag='enc-pairs-repl')
+    rv(rep, binp, 'enc-random', seed, tier, extra=['--repl', 'on', '--manual'], tag='enc-random-repl')
     rep.cov['rule'] = ('with-replacement methods on cut-set and random histories and on whole texts incl. every decimal-length boundary of the numeric character reference: output = Standard items with one U+FFFD per error item / one NCR per unmappable atom, '
                        'had_errors / had_unmappables = an error item / NCR atom was emitted in that call (the monitor aligns output with the Standard item by item); '
-                       'the without-replacement twin histories are validated by the same monitor in C02/C04')
+                       'directly: every call is also given to a twin converter driven by the documented manual procedure (decoders: the caller\'s loop over '
+                       '*_without_replacement on the same src/capacity/last appending U+FFFD per Malformed; encoders: the loop with an ample buffer on the consumed units '
+                       'appending the NCR per Unmappable) and result, read, written, output and the boolean must be identical call by call')
 
 
 def plan_C10(rep, seed, tier):
